@@ -45,8 +45,15 @@ static void logf_(const char *fmt, ...)
 	va_end(ap);
 }
 
+#ifdef IVY_COVERAGE
+extern void __gcov_dump(void);
+#endif
+
 static void finish(const char *why)
 {
+#ifdef IVY_COVERAGE
+	__gcov_dump();
+#endif
 	if (why != NULL)
 		logf_("%s\n", why);
 	fflush(stdout);
